@@ -4,6 +4,7 @@ Everything is generated constructively: dimensions are solved from drawn ratios 
 reader's preconditions (pins fit, wire fits, clad < radius, ducts nest inside the pitch,
 equal outer ducts, CTD P/D and W/D limits) hold without rejection sampling.
 """
+import copy
 import math
 
 from hypothesis import strategies as st
@@ -328,8 +329,9 @@ def core_spec(draw, core_rings=(1, 2), n_types=(1, 3), rings=(2, 4), ducts=(1, 2
               gap_models=("flow",), regimes=("lam", "tra", "tur"), n_steps=(30, 120), allow_empty=True,
               lowfi=True, regions=False, zero_power=False, dT=(5.0, 200.0), duct_const=True,
               full=False, conv_approx=False, max_cells=2, comps=None, byp_frac=(0.005, 0.2),
-              bc_kinds=("FLOWRATE",)):
-    """A core of 1, 7 or 19 positions with 1-3 assembly types, empty positions and periphery."""
+              bc_kinds=("FLOWRATE",), twins=False):
+    """A core of 1, 7 or 19 positions with 1-3 assembly types, empty positions and periphery.
+    twins: a position may repeat type, flow rate and power file of an earlier position (symmetric loadings)."""
     F = round(draw(fl(0.03, 0.16)), 6)
     cr = draw(st.integers(*core_rings))
     npos = n_positions(cr)
@@ -384,6 +386,16 @@ def core_spec(draw, core_rings=(1, 2), n_types=(1, 3), rings=(2, 4), ducts=(1, 2
     Ptot = 0.0
     common_dT = r6(draw(fl(max(dT[0], 20.0), max(dT[1], 30.0))))
     for idx in filled:
+        if twins and posmeta and draw(st.booleans()):
+            src = posmeta[draw(st.integers(0, len(posmeta) - 1))]
+            ring, pos = pos_to_ring(idx)
+            srow = [r_ for r_ in assignment if pos_to_ring(src["idx"]) == (r_[1], r_[2])][0]
+            assignment.append([src["type"], ring, pos, pos, dict(srow[4])])
+            pfile[str(idx + 1)] = copy.deepcopy(pfile[str(src["idx"] + 1)])
+            Ptot += src["P"]
+            posmeta.append({"idx": idx, "type": src["type"], "Re": src["Re"], "P": src["P"], "flow": src["flow"],
+                            "twin_of": src["idx"]})
+            continue
         tname = "T%d" % draw(st.integers(0, nt - 1))
         meta = metas[tname]
         a = types[tname]
